@@ -660,6 +660,11 @@ class ExprMixin:
                         nxt.append((s2, r if isinstance(r, Raised) else z3.Or(acc, r)))
                 results = nxt
             return results
+        if isinstance(b, VConst) and isinstance(b.py, tuple) and b.py and b.py[0] == "path-parts":
+            ok, p = concrete(a)
+            if ok and p == "..":
+                return [(st, self.P_PARDIR(b.py[1].t))]
+            raise Unsupported("membership test on Path.parts other than '..'")
         if isinstance(b, VConst) and isinstance(b.py, _Frozen):
             ok, p = concrete(a)
             if ok:
